@@ -46,7 +46,9 @@ def roles_of(ast):
             elif s["k"] == "gen":
                 out[f'k{s["tag"]}'] = "compute"
             elif s["k"] == "stream":
-                out[s["tag"]] = "dm" if s["kind"] in ("xdma-add", "xdma-rescale-up", "xdma-rescale-down") else "compute"
+                # a kernel-less XDMA transfer is an accelerator op that has to run on exactly one of the two special
+                # cores (the tree runs it on the compute core; the statement does not say which one)
+                out[s["tag"]] = "dm" if s["kind"] in ("xdma-add", "xdma-rescale-up", "xdma-rescale-down") else ("either" if s["kind"] == "xdma-plain" else "compute")
             for key in ("body", "then", "else"):
                 walk(s.get(key, []))
 
@@ -71,6 +73,8 @@ def expected(ref_hist, roles, c, n):
     for h in ref_hist:
         if h[0] == "op":
             r = roles.get(h[1])
+            if r == "either":
+                continue
             if r == "dm" and c != n - 1:
                 continue
             if r == "compute" and c != 0:
@@ -120,8 +124,16 @@ def execute(case):
         except Violation as v:
             out.update(status="violation", oracle=v.oracle, message=v.message, env_index=i, tape=[list(x) for x in tape.log])
             return out
+        either = {t for t, r in roles.items() if r == "either"}
+        for t in either:
+            want = sum(1 for h in c0.hist if h == ("op", t))
+            got = {c: sum(1 for h in cl.cores[c].hist if h == ("op", t)) for c in range(n)}
+            owners = [c for c, k in got.items() if k]
+            if want and (len(owners) != 1 or owners[0] not in (0, n - 1) or got[owners[0]] != want):
+                out.update(status="violation", oracle="per-core-history", message=f"the kernel-less XDMA transfer {t} runs {want} times in the original; per-core executions after dispatch: {got} (must be one of cores 0 / {n - 1} only)", env_index=i)
+                return out
         for c in range(n):
-            d = first_diff(expected(c0.hist, roles, c, n), cl.cores[c].hist)
+            d = first_diff(expected(c0.hist, roles, c, n), [h for h in cl.cores[c].hist if not (h[0] == "op" and h[1] in either)])
             if d:
                 out.update(status="violation", oracle="per-core-history", message=f"core {c} of {n}: {d}", env_index=i)
                 return out
